@@ -85,8 +85,7 @@ impl<'a> Lexer<'a> {
     pub fn next(&mut self) -> (r: Option<Result<Token<'a>, Error>>)
         ensures
             match r {
-                None => final(self).rest() == old(self).rest() && final(self).fuel() == old(self).fuel()
-                        && final(self).limited() == old(self).limited() && final(self).done() == old(self).done()
+                None => *final(self) == *old(self)
                         && (old(self).limited() || (old(self).done() && old(self).rest() =~= Seq::<char>::empty())),
                 Some(Ok(t)) => old(self).rest() == t.data@ + final(self).rest() && final(self).fuel() < old(self).fuel()
                         && !old(self).limited() && !final(self).limited() && !old(self).done() && (final(self).done() <==> t.kind is Eof),
@@ -216,6 +215,8 @@ impl<'input> Parser<'input> {
     }
     /// termination measure: items the lexer can still produce, plus the buffered look-ahead token
     pub open spec fn fuel(&self) -> nat { self.lexer.fuel() + (if self.current_token is Some { 1nat } else { 0nat }) }
+    /// a token can be consumed without fetching anything new first, or there is nothing left to fetch
+    pub open spec fn ready(&self) -> bool { self.current_token is Some || self.lexer.limited() || self.lexer.done() }
     /// the EOF token has been consumed (only an error path does that)
     pub open spec fn eof_consumed(&self) -> bool { self.lexer.done() && self.current_token is None }
     /// C07: nothing but ignored tokens (already queued) is left in the input
@@ -281,6 +282,8 @@ WF = ("requires", "wf", "old(self).wf()")
 # The callers always peek before consuming; without a look-ahead token, a lexer error fetched *inside* eat()/err_and_pop()
 # would be queued behind the token that is pushed first (order of the tree text would differ from the source).
 LOOK = ("requires", "lookahead_present", "old(self).current_token is Some")
+# ... or the lexer has nothing more to give (then nothing can be fetched and queued out of order)
+READY = ("requires", "lookahead_present_or_lexer_exhausted", "old(self).ready()")
 KEEP = ("ensures", "significant_lookahead_kept", "(old(self).current_token is Some && !ignored_kind(old(self).current_token->0.kind)) ==> final(self).current_token == old(self).current_token && final(self).lexer == old(self).lexer && final(self).errors == old(self).errors && final(self).accept_errors == old(self).accept_errors")
 FLUSH = ("ensures", "queue_flushed_before_significant_lookahead", "(old(self).current_token is Some && !ignored_kind(old(self).current_token->0.kind)) ==> final(self).pending@.len() == 0 && final(self).builder.text() =~= old(self).builder.text() + pending_text(old(self).pending@)")
 
@@ -302,6 +305,7 @@ PEEK_POST = [
     ("ensures", "lookahead_stable", "old(self).current_token is Some ==> final(self).current_token == old(self).current_token && final(self).pending == old(self).pending && final(self).lexer == old(self).lexer && final(self).errors == old(self).errors && final(self).accept_errors == old(self).accept_errors"),
     ("ensures", "none_means_exhausted", "r is None ==> (final(self).lexer.limited() || (final(self).lexer.done() && final(self).lexer.rest() =~= Seq::<char>::empty()))"),
     ("ensures", "eof_is_last", "r is None ==> final(self).lexer.done() == old(self).lexer.done() && old(self).current_token is None"),
+    ("ensures", "exhausted_is_stable", "(old(self).current_token is None && (old(self).lexer.limited() || old(self).lexer.done())) ==> r is None && *final(self) == *old(self)"),
 ]
 
 lim = [p for p in LIMITS_UNIT["parts"] if isinstance(p, dict) and p.get("container") == "LimitTracker" or (isinstance(p, dict) and p.get("name") == "LimitTracker")]
@@ -366,6 +370,7 @@ UNIT = {
             ("ensures", "frozen_after_token_limit", "old(self).lexer.limited() ==> final(self).errors@ =~= old(self).errors@ && final(self).lexer.limited() && r is None"),
             ("ensures", "none_means_exhausted", "r is None ==> (final(self).lexer.limited() || (final(self).lexer.done() && final(self).lexer.rest() =~= Seq::<char>::empty()))"),
             ("ensures", "eof_is_last", "(r is Some ==> (final(self).lexer.done() <==> r->0.kind is Eof)) && (r is None ==> final(self).lexer.done() == old(self).lexer.done())"),
+            ("ensures", "exhausted_is_stable", "(old(self).lexer.limited() || old(self).lexer.done()) ==> r is None && *final(self) == *old(self)"),
            ],
            n_loops=1,
            rewrites=[("for res in &mut self.lexer {", "loop { match self.lexer.next() { None => break, Some(res) => {", 1),
@@ -375,6 +380,7 @@ UNIT = {
                ("text_conserved", "self.builder.text() + pending_text(self.pending@) + self.lexer.rest() =~= old(self).all_text()"),
                ("fuel", "self.lexer.fuel() <= old(self).lexer.fuel()"),
                ("eof_is_last", "self.lexer.done() == old(self).lexer.done()"),
+               ("exhausted_is_stable", "(old(self).lexer.limited() || old(self).lexer.done()) ==> *self == *old(self)"),
                ("errors_appended", "errs_prefix(old(self).errors@, self.errors@), !old(self).accept_errors ==> !self.accept_errors"),
                ("frozen_after_token_limit", "old(self).lexer.limited() ==> self.errors@ =~= old(self).errors@ && self.lexer.limited()"),
            ], ensures=[
@@ -403,6 +409,7 @@ UNIT = {
         P("skip_ignored", [WF, ("ensures", "queue_kept_before_significant_lookahead", "(old(self).current_token is Some && !ignored_kind(old(self).current_token->0.kind)) ==> final(self).pending == old(self).pending"), ("ensures", "conserved", C), ("ensures", "tree_untouched", "final(self).builder == old(self).builder"), ("ensures", "fuel", F),
                            ("ensures", "stops_at_significant", "final(self).current_token is Some ==> !ignored_kind(final(self).current_token->0.kind)"), KEEP,
                            ("ensures", "eof_not_consumed", "!old(self).eof_consumed() ==> !final(self).eof_consumed()"),
+                           ("ensures", "ready", "final(self).ready()"),
                            ("ensures", "none_means_exhausted", "final(self).current_token is None ==> (final(self).lexer.limited() || (final(self).lexer.done() && final(self).lexer.rest() =~= Seq::<char>::empty()))"),
                            ],
           n_loops=1,
@@ -438,18 +445,21 @@ UNIT = {
                "        lemma_prefix_append(old(self).builder.text(), pending_text(ps)); assert(self.errors@.subrange(0, self.errors@.len() as int) =~= self.errors@); }"),
           ]),
     
-        P("eat", [WF, LOOK, ("ensures", "conserved", C), ("ensures", "fuel_strictly_decreases", "final(self).fuel() < old(self).fuel()"),
+        P("eat", [WF, READY, ("ensures", "conserved", C),
+                  ("ensures", "fuel", "final(self).fuel() <= old(self).fuel() && (old(self).current_token is Some ==> final(self).fuel() < old(self).fuel())"),
                   ("ensures", "errors_untouched", "final(self).errors == old(self).errors && final(self).accept_errors == old(self).accept_errors"),
-                  ("ensures", "significant_count", "final(self).builder.nsig() == old(self).builder.nsig() + (if ignored_syntax(kind) { 0nat } else { 1nat })"),
-                  ("ensures", "consumes_lookahead", "final(self).current_token is None && final(self).pending@.len() == 0 && final(self).lexer == old(self).lexer && final(self).builder.text() =~= old(self).builder.text() + pending_text(old(self).pending@) + old(self).current_token->0.data@")],
+                  ("ensures", "significant_count", "final(self).builder.nsig() == old(self).builder.nsig() + (if old(self).current_token is Some && !ignored_syntax(kind) { 1nat } else { 0nat })"),
+                  ("ensures", "consumes_lookahead", "old(self).current_token is Some ==> final(self).current_token is None && final(self).pending@.len() == 0 && final(self).lexer == old(self).lexer && final(self).builder.text() =~= old(self).builder.text() + pending_text(old(self).pending@) + old(self).current_token->0.data@"),
+                  ("ensures", "nothing_to_consume", "old(self).current_token is None ==> final(self).current_token is None && final(self).lexer == old(self).lexer")],
           hints=[("before", "if self.current().is_none() {", "let ghost s1 = *self;"),
                  ("before", "let token = self.pop();", "let ghost s2 = *self; proof { lemma_conserved_trans(&*old(self), &s1, &s2); assert(s2.pending@.len() == 0); }"),
                  ("body_end", None, "proof { let a = s2.builder.text(); lemma_prefix_append(a, token.data@); lemma_prefix_trans(old(self).builder.text(), a, self.builder.text());\n"
                                     "        assert(self.errors@.subrange(0, old(self).errors@.len() as int) =~= s2.errors@.subrange(0, old(self).errors@.len() as int)); assert(pending_text(self.pending@) =~= Seq::<char>::empty()); }")]),
-        P("bump", [WF, LOOK, ("ensures", "conserved", C), ("ensures", "fuel_strictly_decreases", "final(self).fuel() < old(self).fuel()"),
-                   ("ensures", "tree_gets_lookahead", "is_prefix(old(self).builder.text() + pending_text(old(self).pending@) + old(self).current_token->0.data@, final(self).builder.text())"),
+        P("bump", [WF, READY, ("ensures", "conserved", C),
+                   ("ensures", "fuel", "final(self).fuel() <= old(self).fuel() && (old(self).current_token is Some ==> final(self).fuel() < old(self).fuel())"),
                    ("ensures", "stops_at_significant", "final(self).current_token is Some ==> !ignored_kind(final(self).current_token->0.kind)"),
-                   ("ensures", "significant_count", "final(self).builder.nsig() == old(self).builder.nsig() + (if ignored_syntax(kind) { 0nat } else { 1nat })")],
+                   ("ensures", "ready_again", "final(self).ready()"),
+                   ("ensures", "significant_count", "final(self).builder.nsig() == old(self).builder.nsig() + (if old(self).current_token is Some && !ignored_syntax(kind) { 1nat } else { 0nat })")],
           hints=[("after", "self.eat(kind);", "let ghost s1 = *self;"),
                  ("body_end", None, "proof { lemma_conserved_trans(&*old(self), &s1, &*self); }")]),
         P("limit_err", [WF, ("ensures", "conserved", C), ("ensures", "fuel", F),
@@ -466,7 +476,10 @@ UNIT = {
                   ("ensures", "lookahead_stable", "old(self).current_token is Some ==> final(self).current_token == old(self).current_token")],
           hints=[("before", "self.push_err(err);", "let ghost s1 = *self;"),
                  ("body_end", None, "proof { lemma_conserved_trans(&*old(self), &s1, &*self); }")]),
-        P("err_and_pop", [WF, LOOK, ("ensures", "conserved", C), ("ensures", "fuel", F)],
+        P("err_and_pop", [WF, READY, ("ensures", "conserved", C),
+                          ("ensures", "fuel", "final(self).fuel() <= old(self).fuel() && (old(self).current_token is Some ==> final(self).fuel() < old(self).fuel())"),
+                          ("ensures", "ready_again", "final(self).ready()"),
+                          ("ensures", "error_recorded", "(old(self).current_token is Some && old(self).accept_errors) ==> final(self).errors@.len() > old(self).errors@.len()")],
           hints=[("before", "if self.current().is_none() {", "let ghost s1 = *self;"),
                  ("before", "let current = self.pop();", "let ghost s2 = *self; proof { lemma_conserved_trans(&*old(self), &s1, &s2); }"),
                  ("after", "self.push_token(SyntaxKind::ERROR, current);", "let ghost s3 = *self; proof { lemma_prefix_append(s2.builder.text(), current.data@); assert(s3.conserved(&s2)) by { assert(s3.errors@.subrange(0, s2.errors@.len() as int) =~= s2.errors@); }; lemma_conserved_trans(&*old(self), &s2, &s3); }"),
